@@ -209,6 +209,16 @@ func (fr *Frame) ctx(st *State, li *loopInfo) *EvalCtx {
 		if b, ok := fr.lets[name]; ok {
 			return b, true
 		}
+		if strings.HasPrefix(name, "$k") && len(name) > 2 {
+			// $k<N>: completed iterations of loop N (must be in scope)
+			for _, l2 := range fr.loops {
+				if fmt.Sprintf("$k%d", l2.ordinal) == name && l2.rangeIdx != nil {
+					if _, ok := fr.env[l2.rangeIdx]; ok || fr.override[l2.rangeIdx] != nil {
+						return Binding{term: app("+", fr.val(l2.rangeIdx), leaf("1")), typ: tInt}, true
+					}
+				}
+			}
+		}
 		if li != nil {
 			switch name {
 			case "$k":
